@@ -1,0 +1,38 @@
+//go:build verif
+
+// Add-only verification hooks for the /verif C02/C03 harness. Compiled only
+// with `-tags verif`; with the tag off the package is unchanged.
+
+package connector
+
+import "time"
+
+type verifClock struct {
+	now   func() time.Time
+	after func(d time.Duration, f func()) (stop func() bool)
+}
+
+type verifTimer struct{ stop func() bool }
+
+func (t verifTimer) Stop() bool { return t.stop() }
+
+func (c verifClock) Now() time.Time { return c.now() }
+
+func (c verifClock) AfterFunc(d time.Duration, f func()) stoppableTimer {
+	return verifTimer{stop: c.after(d, f)}
+}
+
+// VerifSetClock replaces the persister's clock (the same seam the package's
+// own tests use) so that a harness decides when the debounce timer fires.
+// Must be called before the persister is used.
+func (p *Persister) VerifSetClock(now func() time.Time, after func(d time.Duration, f func()) (stop func() bool)) {
+	p.clock = verifClock{now: now, after: after}
+}
+
+// VerifSetAckTimings sets the test-only overrides of Teardown's flush budget
+// and of the deferred-ack retry policy (zero keeps the default).
+func (s *Source) VerifSetAckTimings(teardownFlush time.Duration, maxRetries int, backoffCap time.Duration) {
+	s.teardownFlushTimeout = teardownFlush
+	s.deferredAckMaxRetries = maxRetries
+	s.deferredAckBackoffCap = backoffCap
+}
